@@ -128,9 +128,30 @@ func features(req opgen.Request) string {
 	return fmt.Sprintf("z%d/f%d/%d", z, f, n)
 }
 
+// drawSecretOp picks the operation: three quarters of the cases go to the
+// high-level operations (multiplications, keys, ECDH, signing), the rest to
+// field / scalar arithmetic, uniformly within each group (an index drawn with
+// IntRange rather than SampledFrom, whose shrink-friendly bias favours the
+// first elements).
+func drawSecretOp(t *rapid.T) string {
+	var arith, high []string
+	for _, o := range opgen.SecretOps {
+		if strings.HasPrefix(o, "fe.") || strings.HasPrefix(o, "sc.") {
+			arith = append(arith, o)
+		} else {
+			high = append(high, o)
+		}
+	}
+	grp := high
+	if rapid.IntRange(0, 3).Draw(t, "group") == 0 {
+		grp = arith
+	}
+	return grp[rapid.Uint32Range(0, uint32(len(grp)-1)).Draw(t, "op")]
+}
+
 func secretIndependence(t *rapid.T, kind, sub string) {
 	srv := servers(t, kind)
-	op := rapid.SampledFrom(opgen.SecretOps).Draw(t, "op")
+	op := drawSecretOp(t)
 	base := opgen.Draw(t, op, "base")
 	k := rapid.IntRange(2, 5).Draw(t, "alternatives")
 	reqs := []opgen.Request{base}
@@ -413,7 +434,7 @@ func propNoVartime(t *rapid.T) {
 	if err != nil || len(rs) == 0 {
 		t.Fatalf("%v: no *Vartime* functions found in the sources (%v)", opclient.ErrHarness, err)
 	}
-	op := rapid.SampledFrom(opgen.SecretOps).Draw(t, "op")
+	op := drawSecretOp(t)
 	req := opgen.Draw(t, op, "r")
 	line := opclient.Line(req.Op, req.Args...)
 	s := rapid.SampledFrom(srv).Draw(t, "build")
